@@ -142,8 +142,11 @@ def run(pid, tier, args):
             xcases = [{"id": "KX0", "rules": {"Root": [gen_lex.rule("[^ab]+", True, "push", "S1"), gen_lex.rule("a")], "S1": [gen_lex.named("Ref0", "\\0"), gen_lex.rule("[a-c]"), gen_lex.rule("b", act="pop")]}},
                       {"id": "KX1", "rules": {"Root": [gen_lex.rule("(?s)."), gen_lex.rule("a")]}},
                       {"id": "KX2", "rules": {"Root": [gen_lex.rule("[^a]"), gen_lex.rule("a+")]}}]
+            # ... and digits: a back-reference is ONE digit, a digit after it is literal text (\\11 = group 1 followed by "1")
+            xcases += [{"id": "KX3", "rules": {"Root": [gen_lex.named("Open", "(a+)b", "push", "S1"), gen_lex.rule("[ab1]")], "S1": [gen_lex.named("End", "\\11", "pop"), gen_lex.rule("[ab1]")]}},
+                       {"id": "KX4", "rules": {"Root": [gen_lex.named("Open", "(a)(1)?", "push", "S1"), gen_lex.rule("b")], "S1": [gen_lex.named("End", "b\\10", "pop"), gen_lex.rule("[ab1]")]}}]
             xraw = os.path.join(xd, "raw.json")
-            gen_lex.write(xraw, list("abx"), xcases)
+            gen_lex.write(xraw, list("abx1"), xcases)
             vlib.vh(vhbin, ["lex-prep", xraw, os.path.join(xd, "cases.json")])
             shutil.copy(os.path.join(xd, "cases.json"), os.path.join(wd, "cases.json.main")) if False else None
             import shutil as _sh
@@ -159,7 +162,7 @@ def run(pid, tier, args):
                 byid[c["id"]] = c
                 cases.append(c)
             for m in xmism:
-                m["alpha"] = list("abx")
+                m["alpha"] = list("abx1")
             mism = mism + xmism
         if res.violation:
             # an invariant of the specification failed on the model itself: with the intended semantics this is a
